@@ -275,17 +275,8 @@ def check_data_and_ll(ctx):
     R = "C07-DATA"
     ctx.rule(R, "multi-survey data are stripped in ONE common unit (the first source's) and re-labelled with that unit (shared with C08-LOCK); "
                 "ln_unmarginalized_likelihood strips data, errors, jitter and the model curve in the data unit.")
-    fn = ctx.prog.func(DH, "validate_prepare_data", R)
-    ru = [s for s in A.walk_local(fn) if isinstance(s, ast.Assign) and canon(s.targets[0]) == "rv_unit" and not isinstance(s.value, ast.Constant)]
-    oku = len(ru) == 1 and canon(ru[0].value) == canon(parse("d.rv.unit")) and [(canon(t), pol) for t, pol in A.guards_of(ru[0])][-1:] == [(canon(parse("rv_unit is None")), True)]
-    ctx.check(R, ru[0] if ru else fn, "common unit fixed by the first source only", oku, "rv_unit is reassigned for every source: earlier sources' numbers are labelled with a later source's unit", key="common-unit")
-    for acc, attr in (("rv", "rv"), ("err", "rv_err")):
-        ap = [c for c in A.calls_in(fn) if A.last_attr(c) == "append" and canon(c.func.value) == acc]
-        ok = len(ap) == 1 and canon(ap[0].args[0]) == canon(parse("d.%s.to_value(rv_unit)" % attr))
-        ctx.check(R, ap[0] if ap else fn, "`%s` stripped in the common unit" % acc, ok, "appends %s" % (A.unparse(ap[0].args[0]) if ap else None), key="strip:" + acc)
-        rl = [s for s in fn.body if isinstance(s, ast.Assign) and canon(s.targets[0]) == acc and "concatenate" in A.unparse(s.value)]
-        okr = len(rl) == 1 and canon(rl[0].value) == canon(parse("np.concatenate(%s) * rv_unit" % acc))
-        ctx.check(R, rl[0] if rl else fn, "`%s` re-labelled with the common unit" % acc, okr, "%s = %s" % (acc, A.unparse(rl[0].value) if rl else None), key="label:" + acc)
+    from .C08 import check_lock
+    check_lock(_Relabel(ctx, {"C08-LOCK": R}))
     ll = ctx.prog.func(SM, "JokerSamples.ln_unmarginalized_likelihood", R)
     fl = A.Flow(ll)
     ln = [c for c in A.calls_in(ll) if A.call_name(c) == "ln_normal"]
